@@ -698,8 +698,8 @@ theorem segOK_of_avoids (s : Segment) (h : SegAvoids s name) : SegOK env (mapInd
 clause and no bucket-by of `f`, of any flag of the store (prerequisites) or of any segment of the
 store refers to `name`. -/
 theorem unreferenced_attribute
-    (hF : ∀ fl ∈ env.store.flags, FlagAvoids fl name)
-    (hS : ∀ s ∈ env.store.segments, SegAvoids s name)
+    (hF : ∀ fl ∈ env.store.flags.map (·.2), FlagAvoids fl name)
+    (hS : ∀ s ∈ env.store.segments.map (·.2), SegAvoids s name)
     (sf n : Nat) (f : Flag) (hf : FlagAvoids f name) (chain : List String) :
     Spec.evalFlag sf n (withCtx env (mapInd g env.ctx)) f chain = Spec.evalFlag sf n env f chain :=
   evalFlag_ctx (fun fl hfl => flagOK_of_avoids hg env fl (hF fl hfl))
@@ -723,8 +723,8 @@ theorem addAttrTo_agree (k name : String) (v : J) (sc : SCtx) :
 
 /-- The property as worded: adding a context attribute that no clause or bucket-by names. -/
 theorem add_unreferenced_attribute (env : Env) (k name : String) (v : J)
-    (hF : ∀ fl ∈ env.store.flags, FlagAvoids fl name)
-    (hS : ∀ s ∈ env.store.segments, SegAvoids s name)
+    (hF : ∀ fl ∈ env.store.flags.map (·.2), FlagAvoids fl name)
+    (hS : ∀ s ∈ env.store.segments.map (·.2), SegAvoids s name)
     (sf n : Nat) (f : Flag) (hf : FlagAvoids f name) (chain : List String) :
     Spec.evalFlag sf n (withCtx env (mapInd (addAttrTo k name v) env.ctx)) f chain =
       Spec.evalFlag sf n env f chain :=
@@ -923,8 +923,8 @@ kind-test clause matches leaves the result unchanged — provided the "single `u
 shortcut of the segment lists is not observable (`ShortcutNeutral`; automatic when the original
 context is already a multi-context, or a single context of a kind other than `user`). -/
 theorem unreferenced_kind (hk : k ≠ defaultKind)
-    (hF : ∀ fl ∈ env.store.flags, FlagIgnoresKind env.rx fl k)
-    (hS : ∀ s ∈ env.store.segments, SegIgnoresKind env.rx s k ∧ ShortcutNeutral env.ctx ctx' s)
+    (hF : ∀ fl ∈ env.store.flags.map (·.2), FlagIgnoresKind env.rx fl k)
+    (hS : ∀ s ∈ env.store.segments.map (·.2), SegIgnoresKind env.rx s k ∧ ShortcutNeutral env.ctx ctx' s)
     (sf n : Nat) (f : Flag) (hf : FlagIgnoresKind env.rx f k) (chain : List String) :
     Spec.evalFlag sf n (withCtx env ctx') f chain = Spec.evalFlag sf n env f chain :=
   evalFlag_ctx (fun fl hfl => flagOK_of_ignores env h fl (hF fl hfl))
@@ -936,8 +936,8 @@ end Lift7
 /-- 7, multi-context form: no shortcut condition is needed. -/
 theorem unreferenced_kind_multi (env : Env) (cs : List SCtx) (extra : SCtx)
     (hctx : env.ctx = .multi cs) (hk : extra.kind ≠ defaultKind)
-    (hF : ∀ fl ∈ env.store.flags, FlagIgnoresKind env.rx fl extra.kind)
-    (hS : ∀ s ∈ env.store.segments, SegIgnoresKind env.rx s extra.kind)
+    (hF : ∀ fl ∈ env.store.flags.map (·.2), FlagIgnoresKind env.rx fl extra.kind)
+    (hS : ∀ s ∈ env.store.segments.map (·.2), SegIgnoresKind env.rx s extra.kind)
     (sf n : Nat) (f : Flag) (hf : FlagIgnoresKind env.rx f extra.kind) (chain : List String) :
     Spec.evalFlag sf n (withCtx env (.multi (cs ++ [extra]))) f chain =
       Spec.evalFlag sf n env f chain := by
@@ -950,11 +950,11 @@ theorem unreferenced_kind_multi (env : Env) (cs : List SCtx) (extra : SCtx)
 per-kind list for kind `user`. -/
 theorem unreferenced_kind_single (env : Env) (sc extra : SCtx)
     (hctx : env.ctx = .single sc) (hk : extra.kind ≠ defaultKind)
-    (hU : sc.kind ≠ defaultKind ∨ ∀ s ∈ env.store.segments,
+    (hU : sc.kind ≠ defaultKind ∨ ∀ s ∈ env.store.segments.map (·.2),
       (∀ t ∈ s.includedContexts, normKind t.contextKind ≠ defaultKind) ∧
       (∀ t ∈ s.excludedContexts, normKind t.contextKind ≠ defaultKind))
-    (hF : ∀ fl ∈ env.store.flags, FlagIgnoresKind env.rx fl extra.kind)
-    (hS : ∀ s ∈ env.store.segments, SegIgnoresKind env.rx s extra.kind)
+    (hF : ∀ fl ∈ env.store.flags.map (·.2), FlagIgnoresKind env.rx fl extra.kind)
+    (hS : ∀ s ∈ env.store.segments.map (·.2), SegIgnoresKind env.rx s extra.kind)
     (sf n : Nat) (f : Flag) (hf : FlagIgnoresKind env.rx f extra.kind) (chain : List String) :
     Spec.evalFlag sf n (withCtx env (.multi [sc, extra])) f chain =
       Spec.evalFlag sf n env f chain := by
